@@ -142,7 +142,7 @@ func TestVerif_C22(t *testing.T) {
 	var current *vC22Step
 	firstFinal := map[crypto.Hash]crypto.Hash{} // transaction -> snapshot that finalized it first (recorded after the delivery returned)
 	var finalizedTxs []*common.VersionedTransaction
-	onChain := map[string]bool{} // transaction|chain pairs already written (a chain never repeats a transaction)
+	onChain := map[string]bool{}  // transaction|chain pairs already written (a chain never repeats a transaction)
 	var inflight *common.Snapshot // certified snapshot being delivered when the cut is taken
 	var inflightTxs []*common.VersionedTransaction
 	totalBudget := r.N(44, 1<<30)
